@@ -72,6 +72,10 @@ CHECKS = {
             "contracts on the real grid-landscape operators (+, -, unary -, scalar *, /, union_vals) and the map-style exact operators with frame obligations (no store into an operand's buffer), VCs from the AST; bounded-symbolic execution (E2) of the real slope-merge chain of exact addition for <=3+3 breakpoints; run-time operator sequences on shared operands",
             "Mixed: proved for all sizes - grid arithmetic is pointwise with zero padding of the shallower operand, keeps the grid, rejects mismatched grids/degrees/non-numbers/zero divisors, never writes into an operand; exact negation / scaling / division map over depths and pairs. Bounded - exact addition (merge of slope lists) for <=3+3 (4+4 thorough) breakpoints incl. coincident abscissae; snap / linear combination / average sampled.",
             "D15 np.pad, D16 object-array dispatch, wf precondition on critical pairs; E2 bounds; generator, models, contracts trusted"),
+    "C18": ("other",
+            "per-method state contracts on the real PersistenceLandscaper.fit (ghost user-fixed flags, five pre-states) / transform, a relational script contract for PersistenceImager.fit (two pre-states, same data => same post-state), fit_transform vs fit;transform as a script contract, imager.transform element-wise mapping; run-time random call sequences against fresh transformers",
+            "Mixed with a known finding: proved - imager fits forget the past, fit_transform equals fit then transform in state and images, transforms leave the fitted state untouched and map collections in order, landscaper fit honours user-fixed ends and learns min birth / max death on a fresh transformer. Refuted on the unchanged tree (KNOWN-FINDING): a second landscaper fit keeps the first fit's grid. Call sequences are sampled.",
+            "D21 sklearn mixin, D24 deepcopy; induction over call sequences is a meta-argument; level is `other` because the refit obligations are refuted (known finding), so discharged < obligations"),
 }
 
 NOT_YET = "check not built yet in this session (planned per DESIGN.md section 5)"
